@@ -78,7 +78,12 @@ func (s Str) Concrete() bool { return s.B == nil }
 // 'g', -1, 64): an opaque token occupying one byte cell. By strconv's
 // contract it consists of characters from [0-9+-.eE] (for finite f) and
 // ParseFloat maps it back to exactly f.
-type NumTok struct{ F *smt.Term }
+type NumTok struct {
+	F *smt.Term
+	// Lossy marks a token produced with a format other than ('g', -1, 64): its
+	// text need not parse back to F.
+	Lossy string
+}
 
 // rangeIter is the state of a Range instruction.
 type rangeIter struct {
